@@ -68,6 +68,7 @@ InsertJ(text, i, jid) == SubSeq(text, 1, i) \o <<[k |-> "junk", id |-> jid]>> \o
 Coarse ==
     CASE Family = "C05" -> UNION {Perms(S \cup {"W", "C", "A"}) : S \in Subsets5}     \* every order of every subset, ~A anywhere
       [] Family = "C07" -> {<<"dcr", d>> : d \in 0..MaxD} \cup {<<"wrapped", c>> : c \in 1..MaxC}
+                           \cup {<<"tall", r>> : r \in {21, 22, 23, 45, 101}}      \* beyond the 21-line sniffing window
       [] Family = "C02" -> {<<r, c, f, early>> : r \in 1..MaxR, c \in 1..MaxC, f \in Followers, early \in BOOLEAN}
       [] Family = "C06" -> {<<r, c, tc, pol, hasnull, w>> : r \in 1..MaxR, c \in 2..MaxC, tc \in {0, 2}, pol \in {"strict", "none"},
                                                            hasnull \in BOOLEAN, w \in {"NO", "YES"}}
@@ -79,7 +80,12 @@ Fine(a) ==
              tag |-> <<"perm", a, psz, osz, vers, ar>>] : ar \in {2, 0}, psz \in (IF Big THEN 0..2 ELSE {0, 2}), osz \in (IF Big THEN 0..3 ELSE {2, 3}),
                                                      st \in Steers, vers \in {"2.0", "1.2"}}
       [] Family = "C07" ->
-           IF a[1] = "dcr"
+           IF a[1] = "tall"
+           THEN {[text |-> VBlock("NO", "SPACE") \o WBlock("null1") \o CBlock(d)
+                           \o ABlock(a[2], c, [NoDeco(a[2]) EXCEPT ![gap] = dd], Fin), opts |-> Opts0,
+                  tag |-> <<"tall", a[2], d, c, gap, dd>>] : c \in 1..3, d \in 0..4, gap \in {1, 21, 22, a[2] + 1},
+                                                           dd \in {<<>>, <<"comment">>, <<"blank", "blank">>}}
+           ELSE IF a[1] = "dcr"
            THEN {[text |-> VBlock("NO", "SPACE") \o WBlock("null1") \o CBlock(a[2])
                            \o ABlock(r, c, deco, LAMBDA i, j : IF j = tcol THEN "TEXT" ELSE "FIN"), opts |-> Opts0,
                   tag |-> <<"dcr", a[2], c, r, deco, tcol>>] : c \in 1..MaxC, r \in 1..MaxR, tcol \in {0, 0, 1, 2},
